@@ -182,7 +182,7 @@ class Sub:
             return self._call()
         except TimeoutError:
             signal.alarm(0)
-            return Fuel(2_000_000).run(self._call)
+            return Fuel(5_000_000).run(self._call)
         finally:
             signal.alarm(0)
             signal.signal(signal.SIGALRM, old)
@@ -306,7 +306,7 @@ def run_case(spec):
         s = sub.call()
     except FuelExhausted:
         out.fail("C15.fuel/" + sub.solver, "%s does not return (more than 20000 Hessian-product / curvature "
-                 "evaluations, or 2e6 function calls inside cobyqa)" % sub.solver)
+                 "evaluations, or 5e6 line events inside cobyqa)" % sub.solver, fatal=True)
         return out
     except Exception as exc:
         out.fail("C15.exc/%s/%s" % (sub.solver, type(exc).__name__), "%s raised %s: %s" % (sub.solver, type(exc).__name__, exc))
